@@ -31,19 +31,22 @@ MC_INV = ("INVARIANT ReadBackEqual\nINVARIANT DeviceSingleBreeze\nINVARIANT Clie
           "PROPERTY WriteIsUpd\nPROPERTY NoWriteWithoutChange\nPROPERTY ClearedByApply\n")
 
 
-def caps_pages(prof, five_level=False, rich=False, pages2=False):
+def caps_pages(prof, five_level=False, rich=False, pages2=False, swing_modes=None):
     """One 0xB5 page, or - as real units do - two: the first announces 'additional capabilities', the property settings sit on the second."""
     if not pages2:
-        return [caps_body(prof, five_level, rich)]
-    one = caps_body(set(), five_level, rich)                       # modes (+ humidity / energy) only
-    two = caps_body(prof, five_level, False)
-    two = bytes([0xB5, two[1] - 1]) + two[2:-4]                     # the property records without the MODES record
+        return [caps_body(prof, five_level, rich, swing_modes)]
+    one = caps_body({i for i in prof if i < 64}, five_level, rich, swing_modes)  # modes (+ humidity / energy) and the property ids below 0x40
+    two = caps_body({i for i in prof if i >= 64}, five_level, False)
+    two = bytes([0xB5, two[1] - 1]) + two[2:-4]                     # the remaining property records, without the MODES record
     return [one + bytes([1, 0]), two + bytes([0, 0])]
 
 
-def caps_body(prof, five_level=False, rich=False):
+def caps_body(prof, five_level=False, rich=False, swing_modes=None):
     recs = b""
     n = 0
+    if swing_modes is not None:                 # SWING_MODES: which louvers can SWING (a state-protocol capability; the angle properties are advertised on their own)
+        recs += bytes([0x15, 0x02, 1, swing_modes])
+        n += 1
     if rich:                                    # the unit also has an indoor humidity sensor and energy statistics: its refresh is four exchanges
         recs += bytes([0x1F, 0x02, 1, 2, 0x16, 0x02, 1, 3])
         n += 2
@@ -55,12 +58,15 @@ def caps_body(prof, five_level=False, rich=False):
     return bytes([0xB5, n + 1]) + recs
 
 
+SWING_MODES_VALUE = {"v": None}
+
+
 def make_device(prof, five_level=False, rich=False, pages2=False, variant=0):
     props = {}
     for pid in prof:
         props[pid] = (bytes([1, 0]) + (bytes([60, 40, 40, 40, 0]) if variant % 2 else b"")) if pid == PIECO else bytes([INIT.get(pid, 0)])
     extra = dict(energy=bytes([0xC1, 0x21, 0x01, 0x44, 0, 0, 0x12, 0x34, 0, 0, 0, 0, 0, 0, 0, 0x56, 0, 7, 0x89, 0]), humidity=bytes([0xC1, 0x21, 0x01, 0x45, 47, 0, 0, 0])) if rich else {}
-    d = acdev.ACModel(caps_pages=caps_pages(prof, five_level, rich, pages2), props=props, **extra)
+    d = acdev.ACModel(caps_pages=caps_pages(prof, five_level, rich, pages2, [None, 0, 1, 3, 2, None, 0, 3][variant % 8]), props=props, **extra)
     d.ieco_full = bool(variant % 2)                  # iECO reported as the full 7-byte record instead of number + switch
     d.state["swing"] = [0, 15, 3, 12][(variant // 2) % 4]      # the louvers are swinging (both / one axis) or not: the swing MODE is a state-protocol setting
     d.strict = True
@@ -207,6 +213,16 @@ def replay(hist, prof, *, five_level=False, mid_apply=False, rich=False, lost_st
                     await ac.get_capabilities()
                 elif a == "selfclean":
                     await ac.start_self_clean()
+                elif a == "caps1":
+                    # two capability pages, the request for the second one goes unanswered (whatever the variant of this run, the unit answers in two pages here)
+                    saved = dev.caps_pages
+                    dev.caps_pages = caps_pages(prof, five_level, rich, True)
+                    dev.lose_second_page = True
+                    try:
+                        await ac.get_capabilities()
+                    finally:
+                        dev.lose_second_page = False
+                        dev.caps_pages = saved
                 elif a == "cleandone":
                     dev.props[PCLEAN] = b"\x00"                 # the unit has finished its self-clean cycle
             except Exception as ex:  # noqa: BLE001 - code under test
